@@ -20,6 +20,8 @@ import ALV.Lemmas.C07Hist
 import ALV.Lemmas.C07Zero
 import ALV.Lemmas.C07SpecFn
 import ALV.Lemmas.C07Order
+import ALV.Lemmas.C07Erase
+import Mathlib.Data.Complex.Basic
 import ALV.Common.Audit
 
 set_option linter.unusedSectionVars false
@@ -787,6 +789,147 @@ theorem zhist_unhashable_zero {st : ZState} {i a : ℕ} {o : ZObj} (ho : st.obj 
     (hz : o.p.zero = .elist ∨ o.p.zero = .edict) : zact st (.hash i) = .fail .type := by
   rcases hz with hz | hz <;> simp [zact, ho, hashZ, hz, PyVal.hash, bind, Except.bind]
 
+/-! ## 8b. ERASURE: the spelled-number model of section 8 is sent homomorphically to the field model of sections 1–7
+
+`F` is any field of characteristic 0 with `I² = −1` (ℚ(i), ℂ); `num I a = a.re + a.im·I` forgets the kind of a
+Python number, `erase I p` erases every coefficient of `p._data` (insertion order kept).  `NumZ z`: the `zero`
+attribute is a numeric zero in any spelling — the only hypothesis; `Good p`: the invariant of every history
+(`zhist_inv`). -/
+
+section Erasure
+variable {F : Type} [Field F] [CharZero F] [DecidableEq F] {I : F}
+
+/-- **C07.11a** on numbers: `+ - * / **` (any kinds, any integer exponent, `/` by a non-zero number) are the
+field operations and Python's `==` is equality of the erased values. -/
+theorem num_hom (hI : I * I = -1) (a b : PyNum) (n : ℤ) (ek : ExpKind) :
+    num I (a + b) = num I a + num I b ∧ num I (a - b) = num I a - num I b ∧ num I (a * b) = num I a * num I b ∧
+    num I (-a) = -num I a ∧ (b.isZero = false → num I (a / b) = num I a / num I b) ∧
+    num I (powNum a n ek) = num I a ^ n ∧ (a.eq b = true ↔ num I a = num I b) ∧
+    (a.isZero = true ↔ num I a = 0) :=
+  ⟨num_add a b, num_sub a b, num_mul hI a b, num_neg a, num_div hI a b, num_powNum hI a n ek,
+    (num_eq_iff hI a b).symm, (num_eq_zero_iff hI a).symm⟩
+
+/-- **C07.11b** constructors: what `Poly(dict / list / number, zero)` stores erases to the field model's
+constructor on the erased input; a well-formed spelled Poly erases to a well-formed field Poly. -/
+theorem erase_ctors (hI : I * I = -1) (l : List (Int × PyNum)) (cs : List PyNum) (c : PyNum) {z : Option PyVal}
+    (hz : NumZ (z.getD dfltZero)) :
+    erase I (ofDictZ l z) = mk (eraseD I l) ∧ erase I (ofListZ cs z) = ofList (cs.map (num I)) ∧
+      erase I (ofNumZ c z) = ofScalar (num I c) :=
+  ⟨erase_ofDictZ hI l hz, erase_ofListZ hI cs hz, erase_ofNumZ hI c hz⟩
+
+theorem erase_wf (hI : I * I = -1) {p : ZPoly} (hg : Good p) (hz : NumZ p.zero) : WF (erase I p) :=
+  wf_erase hI hg hz
+
+/-- **C07.11c** `+ - *`, unary `-` and the six operators with a number: erasure commutes, as lists. -/
+theorem erase_ring_ops (hI : I * I = -1) {p q : ZPoly} (hz : NumZ p.zero) (hz' : NumZ q.zero) (s : ScalOp)
+    (c : PyNum) :
+    erase I (addZ p q) = add (erase I p) (erase I q) ∧ erase I (subZ p q) = sub (erase I p) (erase I q) ∧
+    erase I (mulZ p q) = mul (erase I p) (erase I q) ∧ erase I (negZ p) = neg (erase I p) ∧
+    erase I (scalZ s p c) = scalOp s (erase I p) (num I c) :=
+  ⟨erase_addZ hI hz q, erase_subZ hI hz hz', erase_mulZ hI hz q, erase_negZ hI hz, erase_scalZ hI s hz c⟩
+
+/-- **C07.11d** `**` with an exponent spelled as int / bool / float: a new object holds the field model's power;
+the "returns self" case is the field model's `powIsSelf`. -/
+theorem erase_pow (hI : I * I = -1) {p : ZPoly} (hg : Good p) (hz : NumZ p.zero) (n : ℤ) (ek : ExpKind) :
+    (∀ r, powZ p n ek = .new r → erase I r = pow (erase I p) n) ∧
+    (powZ p n ek = .self → pow (erase I p) n = erase I p ∧ powIsSelf (erase I p : MPoly F) n = true) :=
+  ⟨fun r h => erase_powZ_new hI hg hz h, erase_powZ_self hI⟩
+
+/-- **C07.11e** `/`, `diff`, `integrate` (same answers, same exceptions). -/
+theorem erase_div_calculus (hI : I * I = -1) {p : ZPoly} (hg : Good p) (hz : NumZ p.zero) (q : ZPoly) (c : PyNum)
+    (n : ℕ) :
+    (divsZ p c).map (erase I) = divScalar (erase I p) (num I c) ∧
+    (divZ p q).map (erase I) = divPoly (erase I p) (erase I q) ∧
+    erase I (diffZ p n) = diff (erase I p) n ∧
+    (integrateZ p).map (erase I) = integrate (erase I p) :=
+  ⟨erase_divsZ hI hz c, erase_divZ hI hz q, erase_diffZ hI hg hz n, erase_integrateZ hI hz⟩
+
+/-- **C07.11f** evaluation on exact numbers, every scheme, `v == 0` and the empty Poly included. -/
+theorem erase_call (hI : I * I = -1) {p : ZPoly} (hz : NumZ p.zero) (v : PyNum) (h : Horner) :
+    valOf I (callZ p v h) = call (erase I p) (num I v) h := valOf_callZ hI hz v h
+
+/-- **C07.11g** `p == q` is `==` of the erasures, i.e. (for well-formed Polys) same denotation in `F[T;T⁻¹]`. -/
+theorem erase_eq (hI : I * I = -1) {p q : ZPoly} (hz : NumZ p.zero) (hz' : NumZ q.zero) :
+    eqZ p q = eq (erase I p) (erase I q) := eqZ_eq_eq_erase hI hz hz'
+
+theorem erase_eq_iff (hI : I * I = -1) {p q : ZPoly} (hp : Good p) (hq : Good q) (hz : NumZ p.zero)
+    (hz' : NumZ q.zero) : eqZ p q = true ↔ toLaurent (erase I p) = toLaurent (erase I q) := by
+  rw [eqZ_eq_eq_erase hI hz hz', eq_iff_toLaurent (wf_erase hI hp hz) (wf_erase hI hq hz')]
+
+end Erasure
+
+/-! ### transfer: the ring laws hold, up to the code's `==`, for the spelled Polys that `zhist` runs
+(instance of the erasure: `F = ℂ`; the statements do not mention it) -/
+
+/-- **C07.11h** commutativity, associativity, distributivity, `p − p` empty — for Polys with coefficients and zeros
+of ANY kinds (int / bool / Fraction / float / complex, mixed). -/
+theorem zpoly_ring_laws {p q r : ZPoly} (hp : Good p) (hq : Good q) (hr : Good r)
+    (zp : NumZ p.zero) (zq : NumZ q.zero) (zr : NumZ r.zero) :
+    eqZ (addZ p q) (addZ q p) = true ∧ eqZ (mulZ p q) (mulZ q p) = true ∧
+    eqZ (addZ (addZ p q) r) (addZ p (addZ q r)) = true ∧ eqZ (mulZ (mulZ p q) r) (mulZ p (mulZ q r)) = true ∧
+    eqZ (mulZ p (addZ q r)) (addZ (mulZ p q) (mulZ p r)) = true ∧ (subZ p p).data = [] := by
+  classical
+  have hI := Complex.I_mul_I
+  have wp := wf_erase hI hp zp
+  have wq := wf_erase hI hq zq
+  have wr := wf_erase hI hr zr
+  refine ⟨?_, ?_, ?_, ?_, ?_, ?_⟩
+  · rw [eqZ_eq_eq_erase hI (p := addZ p q) (q := addZ q p) zp zq, erase_addZ hI zp, erase_addZ hI zq]
+    exact add_comm wp wq
+  · rw [eqZ_eq_eq_erase hI (p := mulZ p q) (q := mulZ q p) zp zq, erase_mulZ hI zp, erase_mulZ hI zq]
+    exact mul_comm _ _
+  · rw [eqZ_eq_eq_erase hI (p := addZ (addZ p q) r) (q := addZ p (addZ q r)) zp zp,
+      erase_addZ hI (p := addZ p q) zp, erase_addZ hI zp, erase_addZ hI zp, erase_addZ hI zq]
+    exact add_assoc wp wq wr
+  · rw [eqZ_eq_eq_erase hI (p := mulZ (mulZ p q) r) (q := mulZ p (mulZ q r)) zp zp,
+      erase_mulZ hI (p := mulZ p q) zp, erase_mulZ hI zp, erase_mulZ hI zp, erase_mulZ hI zq]
+    exact mul_assoc _ _ _
+  · rw [eqZ_eq_eq_erase hI (p := mulZ p (addZ q r)) (q := addZ (mulZ p q) (mulZ p r)) zp zp,
+      erase_mulZ hI zp, erase_addZ hI zq, erase_addZ hI (p := mulZ p q) zp, erase_mulZ hI zp, erase_mulZ hI zp]
+    exact left_distrib wq wr
+  · have := sub_self_empty wp
+    rw [← erase_subZ hI zp zp] at this
+    unfold erase eraseD mapV at this
+    exact List.map_eq_nil_iff.1 this
+
+/-- **C07.11i** congruence: `==` operands give `==` results (`+ - *`, unary `-`, `diff`) — whatever the spellings
+on either side; so every law of sections 1–6 can be rewritten under the code's `==`. -/
+theorem zpoly_congr {p p' q q' : ZPoly} (hp : Good p) (hp' : Good p') (hq : Good q) (hq' : Good q')
+    (zp : NumZ p.zero) (zp' : NumZ p'.zero) (zq : NumZ q.zero) (zq' : NumZ q'.zero)
+    (h : eqZ p p' = true) (h' : eqZ q q' = true) (n : ℕ) :
+    eqZ (addZ p q) (addZ p' q') = true ∧ eqZ (subZ p q) (subZ p' q') = true ∧
+    eqZ (mulZ p q) (mulZ p' q') = true ∧ eqZ (negZ p) (negZ p') = true ∧
+    eqZ (diffZ p n) (diffZ p' n) = true := by
+  classical
+  have hI := Complex.I_mul_I
+  have wp := wf_erase hI hp zp
+  have wp' := wf_erase hI hp' zp'
+  have wq := wf_erase hI hq zq
+  have wq' := wf_erase hI hq' zq'
+  rw [eqZ_eq_eq_erase hI zp zp', eq_iff wp wp'] at h
+  rw [eqZ_eq_eq_erase hI zq zq', eq_iff wq wq'] at h'
+  refine ⟨?_, ?_, ?_, ?_, ?_⟩
+  · rw [eqZ_eq_eq_erase hI (p := addZ p q) (q := addZ p' q') zp zp', erase_addZ hI zp, erase_addZ hI zp',
+      eq_iff (wf_add _ _) (wf_add _ _), toLaurent_add wp wq, toLaurent_add wp' wq', h, h']
+  · rw [eqZ_eq_eq_erase hI (p := subZ p q) (q := subZ p' q') zp zp', erase_subZ hI zp zq, erase_subZ hI zp' zq',
+      eq_iff (wf_sub _ _) (wf_sub _ _), toLaurent_sub wp wq, toLaurent_sub wp' wq', h, h']
+  · rw [eqZ_eq_eq_erase hI (p := mulZ p q) (q := mulZ p' q') zp zp', erase_mulZ hI zp, erase_mulZ hI zp',
+      eq_iff (wf_mul _ _) (wf_mul _ _), toLaurent_mul, toLaurent_mul, h, h']
+  · rw [eqZ_eq_eq_erase hI (p := negZ p) (q := negZ p') zp zp', erase_negZ hI zp, erase_negZ hI zp',
+      eq_iff (wf_neg _) (wf_neg _), toLaurent_neg wp, toLaurent_neg wp', h]
+  · rw [eqZ_eq_eq_erase hI (p := diffZ p n) (q := diffZ p' n) zp zp', erase_diffZ hI hp zp, erase_diffZ hI hp' zp',
+      eq_iff (wf_diff wp n) (wf_diff wp' n), toLaurent_diff wp, toLaurent_diff wp', h]
+
+/-- at every moment of every history of `zhist`: any three variables with numeric zeros satisfy the ring laws -/
+theorem zhist_ring_laws (ops : List ZOp) {i j k : ℕ} {p q r : ZPoly}
+    (hi : (zrun ZState.empty ops).val i = some p) (hj : (zrun ZState.empty ops).val j = some q)
+    (hk : (zrun ZState.empty ops).val k = some r) (zp : NumZ p.zero) (zq : NumZ q.zero) (zr : NumZ r.zero) :
+    eqZ (addZ p q) (addZ q p) = true ∧ eqZ (mulZ p q) (mulZ q p) = true ∧
+    eqZ (addZ (addZ p q) r) (addZ p (addZ q r)) = true ∧ eqZ (mulZ (mulZ p q) r) (mulZ p (mulZ q r)) = true ∧
+    eqZ (mulZ p (addZ q r)) (addZ (mulZ p q) (mulZ p r)) = true ∧ (subZ p p).data = [] :=
+  zpoly_ring_laws (zval_good (zhist_inv ops) hi) (zval_good (zhist_inv ops) hj) (zval_good (zhist_inv ops) hk)
+    zp zq zr
+
 /-! ## non-vacuity: every hypothesis used above is satisfiable on a non-trivial input -/
 
 section Examples
@@ -883,6 +1026,45 @@ example : setZeroZ (ofListZ [.int 1, .int 0, .int 2] (some .elist)) (.num (.bool
 example : hashZ (ofListZ [.int 1, .int 0, .int 2] (some .elist)) = .error .type := by decide +kernel
 example : (PyNum.int 1 / PyNum.int 2 : PyNum) = .float (1 / 2) true ∧ (PyNum.bool true + PyNum.bool true : PyNum) = .int 2 ∧
     (PyNum.frac (1 / 3) * PyNum.float (1 / 2) true : PyNum) = .float (1 / 6) false := by decide +kernel
+
+-- the specification functions, instantiated
+example : sInteg q0 = some [(1, 1), (2, -1 / 2)] := by decide +kernel
+example : toLaurent (sDiff [(1, 1), (2, -1 / 2)]) = toLaurent q0 :=
+  (sInteg_denotes (show sInteg q0 = some [(1, 1), (2, -1 / 2)] by decide +kernel)).2
+example : sInteg p0 = none := by decide +kernel
+example : sPowZ [((-1 : ℤ), (2 : ℚ))] (-2) = some [(2, 1 / 4)] := by decide +kernel
+example : sortAsc (pow [((-1 : ℤ), (2 : ℚ))] (-2)) = [(2, 1 / 4)] :=
+  pow_eq_specZ ⟨by decide +kernel, by decide +kernel⟩ (by decide +kernel)
+example : toLaurent ([(2, 1 / 4)] : MPoly ℚ) * toLaurent [((-1 : ℤ), (2 : ℚ))] ^ 2 = 1 :=
+  sPowZ_neg_is_inverse (m := 2) (by decide +kernel) (by decide)
+example : sPowZ q0 (-1) = none := by decide +kernel
+example : sComp p0 [((1 : ℤ), (2 : ℚ))] = some [(-1, 1 / 4), (2, 12)] := by decide +kernel
+example : sortAsc (compose p0 [((1 : ℤ), (2 : ℚ))]) = [(-1, 1 / 4), (2, 12)] :=
+  compose_eq_spec wp ⟨by decide +kernel, by decide +kernel⟩ (by decide +kernel)
+example : sortAsc [(-2, 1 / 4), (1, 3 / 2)] = sDivMono p0 1 2 :=
+  (truediv_eq_spec wp (c := 0)).2 (show divPoly p0 [(1, 2)] = .ok [(-2, 1 / 4), (1, 3 / 2)] by decide +kernel)
+example : sortAsc (diff r0 2) = sDiffN r0 2 := diffN_eq_spec wr 2
+example : eq (add p0 q0) (add q0 p0) = sEq (add p0 q0) (add q0 p0) := eq_eq_spec (wf_add _ _) (wf_add _ _)
+example : (([(1 : ℚ), 2, 4]).mapM fun k => lagrangeFunc [((1 : ℚ), 5), (2, 7), (4, 1 / 3)] k) =
+    .ok (sLagrangeAtNodes [((1 : ℚ), 5), (2, 7), (4, 1 / 3)]) :=
+  lagrange_at_nodes (by decide +kernel) (by decide)
+example : order r0 = .ok 3 ∧ values r0 = .ok [-1, 1 / 3, 0, 2] ∧ order p0 = .error .attribute := by decide +kernel
+example : eq (ofList [-1, 1 / 3, 0, 2]) r0 = true := ((values_spec wr).2.2 _ (by decide +kernel)).1
+
+-- erasure: mixed spellings (default zero `0.`, `zero=0`, `zero=0j`), Fraction / float / complex coefficients
+private def za : ZPoly := ofDictZ zl none
+private def zb : ZPoly := ofDictZ [(0, .float (1 / 2) true), (2, .cplx 1 (-1) true)] (some (.num (.int 0)))
+private def zc : ZPoly := ofDictZ [(-1, .bool true), (1, .frac (2 / 3))] (some (.num (.cplx 0 0 true)))
+private theorem nza : NumZ za.zero := ⟨_, rfl, by decide +kernel⟩
+private theorem nzb : NumZ zb.zero := ⟨_, rfl, by decide +kernel⟩
+private theorem nzc : NumZ zc.zero := ⟨_, rfl, by decide +kernel⟩
+example : eqZ (mulZ za (addZ zb zc)) (addZ (mulZ za zb) (mulZ za zc)) = true :=
+  (zpoly_ring_laws (good_normZ _ _) (good_normZ _ _) (good_normZ _ _) nza nzb nzc).2.2.2.2.1
+example : eqZ (mulZ za zb) (mulZ (ofDictZ zl (some (.num (.bool false)))) zb) = true :=
+  (zpoly_congr (q := zb) (q' := zb) (good_normZ _ _) (good_normZ _ _) (good_normZ _ _) (good_normZ _ _) nza
+    ⟨_, rfl, by decide +kernel⟩ nzb nzb (by decide +kernel) (by decide +kernel) 0).2.2.1
+example : num Complex.I (PyNum.cplx 1 (-1) true * PyNum.frac (2 / 3)) = num Complex.I (.cplx 1 (-1) true) * num Complex.I (.frac (2 / 3)) :=
+  (num_hom Complex.I_mul_I _ _ 0 .int).2.2.1
 
 end Examples
 
